@@ -50,7 +50,7 @@ def _e2e(profiles, monitors, projection, nq=1500, nt=20000, extra=None):
 
 
 PROPS.update({
-    'C03': _e2e(['hit', 'inval'], ['C03'], ['outcome', 'ncalls', 'store']),
+    'C03': _e2e(['urls', 'hit', 'inval'], ['C03'], ['outcome', 'ncalls', 'store']),
     'C04': _e2e(['vary', 'mix'], ['C04'], ['outcome', 'ncalls', 'store']),
     'C05': _e2e(['store', 'mix'], ['C05'], ['outcome', 'headers', 'writes']),
     'C06': _e2e(['store', 'mix'], ['C06'], ['outcome', 'writes']),
@@ -60,7 +60,8 @@ PROPS.update({
     'C11': _e2e(['age', 'mix'], ['C11'], ['outcome', 'cache_status', 'age', 'ncalls']),
     'C12': _e2e(['spell'], ['C01', 'C02', 'C06', 'C13', 'C18'], ['outcome', 'calls', 'cache_status', 'age', 'store']),
     'C13': _e2e(['sie', 'mix'], ['C13'], ['outcome', 'calls', 'cache_status', 'age']),
-    'C19': _e2e(['vary', 'inval'], ['C19'], ['store']),
+    'C19': dict(engines=['e2e'], e2e=[dict(profile='repeat', n_quick=150, n_thorough=2000), dict(profile='vary', n_quick=800, n_thorough=8000)],
+                monitors=['C19'], projection=['store'], rule=E2E_RULE, assumptions=[]),
 })
 
 PROPS['C10'] = _e2e(['store', 'mix'], ['C10'], ['outcome', 'ncalls'])
